@@ -71,7 +71,7 @@ ASSUMPTIONS = [
 WATCHDOG_S = 5.0
 BOUNDS = {
     'quick': {
-        'templates': 12,
+        'templates': 13,
         'token_deviations': 1, 'token_ops': 'drop, duplicate, swap with next, replace by / insert '
                                             'before / append each token of the alphabet',
         'token_alphabet': 71, 'char_deviations': 1, 'char_alphabet': 12,
@@ -279,6 +279,8 @@ class TST_PS { string A; };
 ''', entry='string', files={
     'inc/q.mof': 'Qualifier TQ_Inc : string, Scope(any);\n',
 })
+
+_tpl('crlines', 'class TST_CR {\r\n  string A;\n\r\r  uint8 B = 1;\n\r};\r\n\r\rinstance of TST_Base {\r\n\r  Id = "1";\n\r\r};\n')
 
 _tpl('depsearch', r'''class TST_Sub : TST_SpBase { [TQ_Sp("s")] string X; };
 [Association] class TST_SubA { [Key] TST_SpRef REF R; [Key] TST_Sub REF S; };
@@ -1399,6 +1401,33 @@ def gen_pragmas():
             yield dict(check='pragma', seam='mofwbem', entry=entry, text=text,
                        files=TEMPLATES['depsearch']['files'], ns='root/empty', search=True,
                        fault=None, origin='pragma-search')
+    # unresolvable and circular class dependencies, in the default namespace and in a namespace chosen
+    # with #pragma namespace, with every shape of EmbeddedInstance qualifier value next to them
+    dep_files = dict(TEMPLATES['depsearch']['files'])
+    dep_files.update({
+        'sp/TST_CycA.mof': 'class TST_CycA : TST_CycB { string A; };\n',
+        'sp/TST_CycB.mof': 'class TST_CycB : TST_CycA { string B; };\n',
+        'sp/TST_RefA.mof': 'class TST_RefA { [Key] string Id; TST_RefB REF R; };\n',
+        'sp/TST_RefB.mof': 'class TST_RefB { [Key] string Id; TST_RefA REF R; };\n',
+        'sp/TST_SelfSup.mof': 'class TST_SelfSup : TST_SelfSup { string A; };\n',
+    })
+    quals = ('Qualifier EmbeddedInstance : string = null, Scope(property, method, parameter);\n'
+             'Qualifier Key : boolean = false, Scope(property, reference), Flavor(DisableOverride, ToSubclass);\n')
+    deps = ['class TST_DP : TST_Missing { string A; };', 'class TST_DP { TST_Missing REF R; };',
+            'class TST_DP { uint8 M(TST_Missing REF p); };',
+            'class TST_DP : TST_CycA { };', 'class TST_DP { TST_CycA REF R; };',
+            'class TST_DP { TST_RefA REF R; };', 'class TST_DP : TST_SelfSup { };',
+            'class TST_DP : TST_DP { };', 'class TST_DP { TST_DP REF R; };']
+    embs = ['', '[EmbeddedInstance] string e; ', '[EmbeddedInstance(NULL)] string e; ',
+            '[EmbeddedInstance("TST_Missing2")] string e; ', '[EmbeddedInstance("TST_DP")] string e; ']
+    for pre in ('', '#pragma namespace ("root/other")\n'):
+        for dep in deps:
+            for emb in embs:
+                text = pre + quals + dep.replace('{ ', '{ ' + emb, 1)
+                for search in (False, True):
+                    for seam in ('mofwbem', 'mock'):
+                        yield dict(check='pragma', seam=seam, entry='string', text=text, files=dep_files,
+                                   ns=None, search=search, fault=None, origin='dependency')
     # namespace argument of compile_string / compile_file
     for name in TEMPLATES:
         for ns in NAMESPACE_ARGS:
